@@ -645,7 +645,8 @@ SIM_TRUSTED = ["Lean 4.33 kernel", "axioms: propext, Classical.choice, Quot.soun
                "FakeAdaptor (harness/fake_adaptor.hpp), whose completion contract (tcp: synchronous handshake and shutdown; "
                "ssl: asynchronous handshake, shutdown = cancel + asynchronous close_notify) is an assumption about asio / "
                "the kernel / OpenSSL, validated only by the loopback runs of the thorough tier",
-               "via_model driver (ViaModel/Conn.lean, SimDriver.lean)"]
+               "via_model driver (ViaModel/Conn.lean, SimDriver.lean)",
+               "the connection layer itself (connection.hpp, server.hpp, http_connection.hpp, http_server.hpp) is NOT translated: Conn.lean is tied to it by the differential correspondence on generated event histories only; the receiver, predicate and encoder functions it calls are translated (ViaProofs/Trans)"]
 SIM_ASSUMPTIONS = ["single-threaded event loop; thread-pool interleavings are the subject of C12",
                    "the application is the scripted one of sim_driver (answers inside the handler, later, through the router, "
                    "or chunk by chunk on SENT)",
